@@ -106,6 +106,24 @@ Theorem C11_break_unique : forall avail indent items ls,
 Proof. exact break_unique. Qed.
 Print Assumptions C11_break_unique.
 
+(* the same at the level of ITEMS: a division of the item list into non-empty lines that
+   only breaks at cut positions is a grouping of the units ... *)
+Theorem C11_lines_are_unit_groups : forall items lsI,
+  concat lsI = items -> Forall (fun l => l <> []) lsI -> NoForbidden lsI ->
+  exists g, Partition (units items) g /\ flat g = lsI.
+Proof. exact lines_are_unit_groups. Qed.
+Print Assumptions C11_lines_are_unit_groups.
+
+(* ... hence any such division whose lines fit, are maximal and end at forced breaks is
+   the one computed by break_lines *)
+Theorem C11_break_unique_items : forall avail indent items lsI,
+  wf items -> concat lsI = items -> Forall (fun l => l <> []) lsI -> NoForbidden lsI ->
+  (forall g, Partition (units items) g -> flat g = lsI ->
+     Fits avail (avail - indent) g /\ Maximal avail (avail - indent) g /\ Forced g) ->
+  lsI = flat (break_lines avail indent items).
+Proof. exact break_unique_items. Qed.
+Print Assumptions C11_break_unique_items.
+
 (* lines concatenate to the input ... *)
 Theorem C11_concat_lines : forall avail indent items,
   concat (flat (break_lines avail indent items)) = items.
@@ -206,5 +224,5 @@ Proof. vm_compute. reflexivity. Qed.
 
 Example C11_example_layout :
   map ofr (layout (mkCfg 100 10 10 12 AEnd true 0 0) ex_items) =
-  [[FT 25 50; FT 80 30]%Q; [FT 0 30; FA 45 20; FT 65 20]%Q; [FT 0 110]%Q].
+  [[FT 15 50; FT 70 30]%Q; [FT 15 30; FT 50 10; FA 60 20; FT 80 20]%Q; [FT 0 110]%Q].
 Proof. vm_compute. reflexivity. Qed.
